@@ -141,7 +141,7 @@ class Agg:
         # checked on ("(12 rule visits)"); zero means the code was restructured so that the rule no longer talks about anything
         # (this happened once: a collect() between a collection and its loop). Counters of things that SHOULD be absent are exempt.
         m0 = re.search(r"\((\d+) [a-z`]", describe)
-        if st == "proved" and m0 and int(m0.group(1)) == 0 and not any(w in describe[m0.start():m0.start() + 60] for w in ("unwrap", "delegations")):
+        if st == "proved" and m0 and int(m0.group(1)) == 0 and not any(w in describe[m0.start():m0.start() + 60] for w in ("unwrap", "delegations", "index events")):
             item["status"] = "inconclusive"
             item["describe"] = "VACUOUS (the rule was checked on 0 occurrences: the code no longer has the shape the obligation reads) - " + describe
             return None
@@ -512,6 +512,8 @@ class Agg:
         ("operators::contained_in", r"(?:(?:rules::eval::)?operators::)?contained_in", ""),
         ("operators::EqOperation::compare", r"(?:rules::eval::)?operators::<impl at guard/src/rules/eval/operators\.rs:\d+:\d+: \d+:\d+>::compare", r"_1: &(?:operators::)?EqOperation"),
         ("eval::each_lhs_compare", r"(?:(?:rules::)?eval::)?each_lhs_compare", ""),
+        # Display of a query / value list: used on lists that may be EMPTY (the `to` of a failing IN whose right-hand query selects nothing)
+        ("exprs::SliceDisplay::fmt", r"(?:rules::)?exprs::<impl at guard/src/rules/exprs\.rs:\d+:\d+: \d+:\d+>::fmt", r"_1: &(?:exprs::)?SliceDisplay"),
     ]
 
     CALLABLE_IMPL = r"(?:rules::)?eval_context::<impl at guard/src/rules/eval_context\.rs:\d+:\d+: \d+:\d+>::call"
@@ -561,6 +563,11 @@ class Agg:
                                f"{label}: every `v[i]` on every path ({n} index events) has i < len(v) (len / is_empty / index modelled per value)")
             if c and arity_of:
                 c["replay"] = self.replay_empty_arg(label)
+                c["reproduced"] = c["replay"].get("reproduced", False)
+                self.candidates.append(c)
+            elif c:
+                import mirblocks
+                c["replay"] = mirblocks.replay_in(self)
                 c["reproduced"] = c["replay"].get("reproduced", False)
                 self.candidates.append(c)
             elif c:
